@@ -79,6 +79,17 @@ def unit_parts(src):
     return int(m.group(1)) if m else 1
 
 
+def unit_configs(src):
+    """`// CONFIGS n`: the TU is compiled n times with -DCFG=k (configuration macros chosen inside the TU)"""
+    m = re.search(r'//\s*CONFIGS\s+(\d+)', open(src).read())
+    return int(m.group(1)) if m else 1
+
+
+def unit_flags(src):
+    m = re.search(r'//\s*FLAGS\s+(.*)', open(src).read())
+    return m.group(1).split() if m else []
+
+
 def build_units(name, extra_flags=(), tag=''):
     """compile trace/units/<name>.cpp against /repo (all parts in parallel, content-addressed cache).
     returns (list of binaries, error text or None)"""
@@ -87,12 +98,14 @@ def build_units(name, extra_flags=(), tag=''):
     deps += glob.glob(os.path.join(VERIF, 'trace', 'units', '*.hpp')) + glob.glob(os.path.join(VERIF, 'trace', '*.hpp'))
     key = sha_files(set(deps), glm_tree_hash() + ' '.join(CXXFLAGS) + ' '.join(extra_flags))[:16]
     n = unit_parts(src)
+    ncfg = unit_configs(src)
     bins, jobs = [], []
-    for k in range(n):
-        out = os.path.join(CACHE, '%s%s_p%d_%s.bin' % (name, tag, k, key))
+    for c in range(ncfg):
+      for k in range(n):
+        out = os.path.join(CACHE, '%s%s_p%d_c%d_%s.bin' % (name, tag, k, c, key))
         bins.append(out)
         if not os.path.exists(out):
-            flags = list(CXXFLAGS) + list(extra_flags) + (['-DPART=%d' % k] if n > 1 else [])
+            flags = list(CXXFLAGS) + unit_flags(src) + list(extra_flags) + (['-DPART=%d' % k] if n > 1 else []) + (['-DCFG=%d' % c] if ncfg > 1 else [])
             jobs.append((['g++'] + flags + ['-o', out + '.tmp', src], out))
     # drop stale binaries of this unit
     for old in glob.glob(os.path.join(CACHE, '%s%s_p*_*.bin' % (name, tag))):
@@ -136,7 +149,7 @@ def eval_unit(bins, unit, ty, bits):
 
 
 def gen_lean(units_path, mod):
-    dst = os.path.join(LEAN, 'GlmVerif', 'Gen', mod + '.lean')
+    dst = os.path.join(LEAN, 'GlmVerif', 'Gen')
     rc, out = sh([sys.executable, os.path.join(VERIF, 'trace', 'gen_lean.py'), units_path, mod, dst])
     return None if rc == 0 else out
 
